@@ -149,6 +149,9 @@ def env_alphabet(tier):
     for st0, st1 in itertools.product(statuses[:3], repeat=2):
         out.append((('t0', st0, True, 'nested', 1), ('t1', st1, True, 'int', 1)))
     out.append((('t0', 'DONE', True, 'dataset', 1), ('t1', 'DONE', False, 'int', 1), ('t2', 'FAILED', True, 'array', 1)))
+    # task names with a path separator (CheckoutTask / BuildTask accept them): the output directory is nested below the root
+    out.append((('sub/t0', 'DONE', True, 'nested', 1),))
+    out.append((('sub/t0', 'DONE', True, 'int', 1), ('t1', 'DONE', True, 'nested', 1), ('sub/deep/t2', 'FAILED', True, 'int', 1)))
     if tier == 'thorough':
         for sts in itertools.product(statuses[:3], repeat=3):
             out.append(tuple((f't{i}', s, True, pkinds[i], 1) for i, s in enumerate(sts)))
